@@ -152,17 +152,17 @@ func Resolve(v ssa.Value) ssa.Value {
 		case *ssa.Extract:
 			if c, ok := x.Tuple.(*ssa.Call); ok {
 				if h := AbsorbedCallee(c); h != nil {
-					if rs := ReturnsOf(h); len(rs) == 1 && x.Index < len(rs[0].Results) {
-						v = RetVal(rs[0], x.Index)
+					if rv := uniqueResult(h, x.Index); rv != nil {
+						v = rv
 						continue
 					}
 				}
 			}
 			return v
 		case *ssa.Call:
-			if h := AbsorbedCallee(x); h != nil {
-				if rs := ReturnsOf(h); len(rs) == 1 && len(rs[0].Results) == 1 {
-					v = RetVal(rs[0], 0)
+			if h := AbsorbedCallee(x); h != nil && h.Signature.Results().Len() == 1 {
+				if rv := uniqueResult(h, 0); rv != nil {
+					v = rv
 					continue
 				}
 			}
@@ -231,6 +231,26 @@ func RetVals(ret *ssa.Return) []ssa.Value {
 	out := make([]ssa.Value, len(ret.Results))
 	for i := range ret.Results {
 		out[i] = RetVal(ret, i)
+	}
+	return out
+}
+
+// uniqueResult: the one value result idx of helper h can carry besides the zero value (nil / false / 0 on early error
+// returns): the caller only uses the result on the path where it is meaningful.
+func uniqueResult(h *ssa.Function, idx int) ssa.Value {
+	var out ssa.Value
+	for _, r := range ReturnsOf(h) {
+		if idx >= len(r.Results) {
+			return nil
+		}
+		rv := RetVal(r, idx)
+		if c, ok := Unwrap(rv).(*ssa.Const); ok && (c.Value == nil || c.IsNil()) {
+			continue
+		}
+		if out != nil && out != rv {
+			return nil
+		}
+		out = rv
 	}
 	return out
 }
